@@ -128,8 +128,6 @@ def _gen_boxes(rng, tier):
                 yield _box_case("cmp", op, ka, kb, x, y)
     for ka in "PE":
         for op in IOPS:
-            if ka == "P" and op == "idiv":
-                continue    # Payload defines no /= (adopted reading, DESIGN 7.1)
             for kb in KINDS:
                 for x, y in _value_pairs(op, rng, nrand):
                     yield _box_case("iop", op, ka, kb, x, y)
